@@ -24,7 +24,6 @@ func VerifNewController(pers persistence.Persistence, fan fans.Fan, curve curves
 		pwmValuesWithDistinctTarget: []int{},
 		pwmMap:                      nil,
 		controlLoop:                 loop,
-		minPwmOffset:                0,
 	}
 }
 
@@ -39,7 +38,9 @@ func (f *DefaultFanController) VerifCalculateTargetPwm() (int, error) { return f
 func (f *DefaultFanController) VerifMeasureRpm()                 { f.measureRpm(f.fan) }
 func (f *DefaultFanController) VerifRestore()                    { f.restorePwmEnabled() }
 func (f *DefaultFanController) VerifComputePwmMap() error        { return f.computePwmMap() }
-func (f *DefaultFanController) VerifMinPwmOffset() int           { return f.minPwmOffset }
+// the number of stall raises as exported in the statistics (not the private field, so that a refactoring of the
+// controller's internals does not stop the harness from building)
+func (f *DefaultFanController) VerifMinPwmOffset() int           { return f.GetStatistics().MinPwmOffset }
 func (f *DefaultFanController) VerifSetOriginal(mode fans.ControlMode, pwm int) {
 	f.originalPwmEnabled = mode
 	f.originalPwmValue = pwm
